@@ -38,6 +38,32 @@ def pairings(L, adjacent_only):
     return out
 
 
+def via_autoref(A, bdd, is_image, t, s, a_ren, a_q, forall):
+    """the module-level dd.autoref.image / preimage with Function operands (handles built without
+    touching the counts; the returned handle is released without a decref: the harness owns none)"""
+    ab = A.BDD.__new__(A.BDD)
+    ab._bdd = bdd
+    ab.vars = bdd.vars
+
+    def mk(u):
+        f = A.Function.__new__(A.Function)
+        f.node, f.bdd, f.manager = u, ab, bdd
+        return f
+    ft, fs = mk(t), mk(s)
+    # the result may be a node known only by its contract (no count to increment): the handle for it
+    # is built like the operands (the real `_wrap` / counts are the subject of K6 and C08)
+    ab._wrap = mk
+    try:
+        out = (A.image if is_image else A.preimage)(ft, fs, a_ren, a_q, forall)
+        if not isinstance(out, A.Function) or out.bdd is not ab:
+            raise AssertionError('dd.autoref.image/preimage did not return a Function of the manager')
+        r = out.node
+        out.node = None
+        return r
+    finally:
+        ft.node = fs.node = None
+
+
 class Harness:
     name = 'C13.image-preimage'
     mode = 'M'
@@ -105,7 +131,7 @@ class Harness:
                 c.assume(z3.Not(oracle.bv_depends(den, S, tgt)))
             renamed = oracle.bv_subst_many(den, S, {k: den.var(v) for k, v in ren.items()})
             want = oracle.bv_quant(den, T & renamed, qlev, forall)
-        if style == 'names':
+        if style in ('names', 'autoref'):
             a_ren = {names[k]: names[v] for k, v in ren.items()}
             a_q = {names[i] for i in qlev}
         else:
@@ -123,9 +149,12 @@ class Harness:
         f = self.B.image if is_image else self.B.preimage
         exc = r = None
         try:
-            r = f(SymInt(t), SymInt(s), a_ren, a_q, bdd, forall)
+            if style == 'autoref':
+                r = via_autoref(base.import_dd('dd.autoref'), bdd, is_image, SymInt(t), SymInt(s), a_ren, a_q, forall)
+            else:
+                r = f(SymInt(t), SymInt(s), a_ren, a_q, bdd, forall)
         except Exception as e:
-            exc = e
+            exc = e.with_traceback(None)
         if exc is not None:
             res = base.discharge([Goal('accepts_arguments_meeting_precondition',
                                        z3.BoolVal(False))], [], extract)
@@ -169,7 +198,7 @@ def replay(case):
                 return dict(violates=False, skipped='precondition of preimage not met '
                             '(target mentions a primed variable)', observed={})
         want = concrete.quant_tt(T & int_subst_many(S, sub, L), qlev, forall, L)
-    if a['style'] == 'names':
+    if a['style'] in ('names', 'autoref'):
         a_ren = {names[k]: names[v] for k, v in ren.items()}
         a_q = {names[i] for i in qlev}
     else:
@@ -178,7 +207,11 @@ def replay(case):
     old = {k: concrete.tt(bdd, k) for k in bdd._succ}
     exc = r = None
     try:
-        r = f(a['t'], a['s'], a_ren, a_q, bdd, forall)
+        if a['style'] == 'autoref':
+            import dd.autoref as A
+            r = via_autoref(A, bdd, is_image, a['t'], a['s'], a_ren, a_q, forall)
+        else:
+            r = f(a['t'], a['s'], a_ren, a_q, bdd, forall)
     except Exception as e:
         exc = e
     call = f'{"image" if is_image else "preimage"}({a["t"]}, {a["s"]}, {a_ren}, {sorted(a_q, key=str)}, forall={forall})'
